@@ -4,6 +4,7 @@ rule-directed mutators (at least one per rule), and fixed matrices for the algor
 A schema is a dict {schema_def, dirdefs, types}; types carry their extensions (printed as `extend ...`).
 Every case is (tag, sdl): tag = "<base>/<mutator>[/detail]" names how it was made."""
 import copy
+import pickle
 
 # ------------------------------------------------------------------ constructors
 
@@ -358,7 +359,7 @@ def base_random(rng, n):
 # each yields (name, mutated schema); the rule it is aimed at is the first component of the name
 
 def _cp(s):
-    return copy.deepcopy(s)
+    return pickle.loads(pickle.dumps(s, -1))
 
 
 def _limit(items, rng, k):
